@@ -405,3 +405,77 @@ func cancelDuringFetch() []string {
 	}
 	return why
 }
+
+// retryRejected (l2; C08, C16): an invalid argument list is rejected every time it is passed
+// to the same Statement - a retry, or the same list after a valid run - and nothing reaches
+// the driver (C08n: BindInputs remembers an argument-type list as checked before the check
+// for superfluous arguments has run).
+func retryRejected() []string {
+	var why []string
+	type tc struct {
+		q       string
+		samples []any
+		good    []any
+		bad     [][]any
+	}
+	cases := []tc{
+		{"SELECT x FROM t WHERE k = $ovArg.k", []any{ovArg{}}, []any{ovArg{K: 1}},
+			[][]any{{ovArg{K: 1}, ovIns{ID: 2}}, {ovIns{ID: 2}, ovArg{K: 1}}, {}, {ovArg{K: 1}, ovArg{K: 2}}, {ovIns{ID: 2}}, {(*ovArg)(nil)}}},
+		{"INSERT INTO t (*) VALUES ($ovIns.*)", []any{ovIns{}}, []any{ovIns{ID: 1, Name: "n"}},
+			[][]any{{ovIns{ID: 1}, ovArg{K: 1}}, {ovIns{ID: 1}, []ovIns{{2, "b"}}}, {ovArg{K: 1}}}},
+		{"SELECT x FROM t", nil, nil, [][]any{{ovArg{K: 1}}}},
+	}
+	for _, c := range cases {
+		for _, bad := range c.bad {
+			for _, order := range []string{"bad-bad-bad", "good-bad-bad", "bad-good-bad"} {
+				s, err := sqlair.Prepare(c.q, c.samples...)
+				if err != nil {
+					why = append(why, "prepare: "+err.Error())
+					continue
+				}
+				sqldb, st := fakedrv.Open()
+				db := sqlair.NewDB(sqldb)
+				ctx := context.Background()
+				for i, step := range strings.Split(order, "-") {
+					args := bad
+					if step == "good" {
+						args = c.good
+					}
+					st.Reset()
+					rerr := db.Query(ctx, s, args...).Run()
+					n := 0
+					for _, e := range st.Events() {
+						if e.Kind == "prepare" || e.Kind == "exec" || e.Kind == "query" {
+							n++
+						}
+					}
+					if step == "good" {
+						if rerr != nil {
+							why = append(why, fmt.Sprintf("%q with valid arguments after an invalid call: %v", c.q, rerr))
+						}
+						continue
+					}
+					what := fmt.Sprintf("%q, call %d of the sequence %s on one Statement, invalid argument list %s", c.q, i+1, order, fmt.Sprintf("%T", bad))
+					if len(bad) > 0 {
+						ts := []string{}
+						for _, a := range bad {
+							ts = append(ts, fmt.Sprintf("%T", a))
+						}
+						what = fmt.Sprintf("%q, call %d of the sequence %s on one Statement, invalid argument list (%s)", c.q, i+1, order, strings.Join(ts, ", "))
+					}
+					if rerr == nil {
+						why = append(why, what+": accepted")
+					}
+					if n > 0 {
+						why = append(why, fmt.Sprintf("%s: %d statement(s) prepared or executed on the database", what, n))
+					}
+				}
+				sqldb.Close()
+			}
+		}
+	}
+	if len(why) > 4 {
+		why = why[:4]
+	}
+	return why
+}
